@@ -371,6 +371,55 @@ func (*schemafier) hashAttribute(att *expr.AttributeExpr, h hash.Hash64) uint64 
 }
 
 func hashAttribute(att *expr.AttributeExpr, h hash.Hash64, seen map[string]*uint64) *uint64 {
+	res := hashAttributeType(att, h, seen)
+	// Two attributes with the same type but different validations or default
+	// values must not share a schema: the schema carries them.
+	if c := hashConstraints(att); c != "" {
+		combined := orderedHash(*res, hashString(c, h), h)
+		return &combined
+	}
+	return res
+}
+
+// hashConstraints returns a string that identifies the validations (other than
+// the required attributes which are accounted for by hashAttributeType) and the
+// default value of att, the empty string if there are none.
+func hashConstraints(att *expr.AttributeExpr) string {
+	var sb strings.Builder
+	if att.DefaultValue != nil {
+		fmt.Fprintf(&sb, "default:%v;", att.DefaultValue)
+	}
+	val := att.Validation
+	if val == nil {
+		return sb.String()
+	}
+	if len(val.Values) > 0 {
+		fmt.Fprintf(&sb, "enum:%v;", val.Values)
+	}
+	if val.Format != "" {
+		fmt.Fprintf(&sb, "format:%s;", val.Format)
+	}
+	if val.Pattern != "" {
+		fmt.Fprintf(&sb, "pattern:%s;", val.Pattern)
+	}
+	for _, b := range []struct {
+		n string
+		v *float64
+	}{{"min", val.Minimum}, {"max", val.Maximum}, {"exmin", val.ExclusiveMinimum}, {"exmax", val.ExclusiveMaximum}} {
+		if b.v != nil {
+			fmt.Fprintf(&sb, "%s:%v;", b.n, *b.v)
+		}
+	}
+	if val.MinLength != nil {
+		fmt.Fprintf(&sb, "minlen:%d;", *val.MinLength)
+	}
+	if val.MaxLength != nil {
+		fmt.Fprintf(&sb, "maxlen:%d;", *val.MaxLength)
+	}
+	return sb.String()
+}
+
+func hashAttributeType(att *expr.AttributeExpr, h hash.Hash64, seen map[string]*uint64) *uint64 {
 	t := att.Type
 	if h, ok := seen[t.Hash()]; ok {
 		return h
